@@ -82,7 +82,9 @@ func genXport(r *rng, seed uint64, focus, arm string) *plan.Plan {
 		xp.Exhaust = 65536 + r.rng(2, 40)
 		xp.Net.UpLatUs = [2]int64{20, 60}
 		xp.HorizonUs = 3_600_000_000
-		p.Knobs.YieldDensity, p.Knobs.StallProb = 0, 0
+		// lock-site yields are paused during the sequential part and
+		// active in the concurrent tail (scen.runExhaust)
+		p.Knobs.YieldDensity, p.Knobs.StallProb, p.Knobs.YieldMask = []float64{0.1, 0.3, 0.6}[r.intn(3)], 0, 0
 		return p
 	}
 	nu := r.rng(1, 2)
